@@ -14,6 +14,7 @@ import (
 	"encoding/json"
 	"fmt"
 	"strings"
+	"sync/atomic"
 	"time"
 
 	"github.com/pion/rtcp"
@@ -59,6 +60,7 @@ type c30Steps struct {
 	sig      string
 	what     string
 	accepted int
+	lastErr  string
 }
 
 // step runs one API call; a panic on the calling goroutine is a finding
@@ -73,6 +75,7 @@ func (s *c30Steps) step(name string, f func() error) bool {
 	}
 	if err != nil {
 		s.log = append(s.log, name+":err")
+		s.lastErr = name + ": " + err.Error()
 		return false
 	}
 	s.log = append(s.log, name+":ok")
@@ -585,6 +588,172 @@ func c30RTPChild(in c30RTPIn) (V, Verdict) {
 	return obs, Pass(fmt.Sprintf("rtp:%s/parsed:%v", in.Origin, okU), okU)
 }
 
+// ---------- suite media: RTP/RTCP from a "connected" peer ----------
+
+// The PeerConnection gets SRTP sessions over in-memory pipes instead of
+// ICE+DTLS; from pion/srtp upwards the receive path is the production one:
+// AcceptStream, handleIncomingSSRC (peek, payload-type lookup, simulcast
+// probing, receiveForRid / receiveForRtx), declared receivers, RTX readers,
+// TrackRemote reads, interceptors.
+type c30MediaIn struct {
+	Sem       int      `json:"sem"`
+	Simulcast bool     `json:"simulcast"` // remote offer: rid section (true) or ssrc-declared sections (false)
+	RTP       []string `json:"rtp"`       // hex
+	RTCP      []string `json:"rtcp,omitempty"`
+}
+
+func c30MediaOffer(simulcast, planb bool) c30Desc {
+	vmid, amid := "0", "1"
+	if planb {
+		vmid, amid = "video", "audio"
+	}
+	sess := []c30Attr{{"group", "BUNDLE " + vmid + " " + amid}, {"fingerprint", "sha-256 " + c30FP}, {"ice-ufrag", "ab12"}, {"ice-pwd", "abcdefghijklmnopqrstuv"}}
+	ext := []c30Attr{{"extmap", "1 " + "urn:ietf:params:rtp-hdrext:sdes:mid"}, {"extmap", "2 urn:ietf:params:rtp-hdrext:sdes:rtp-stream-id"},
+		{"extmap", "3 urn:ietf:params:rtp-hdrext:sdes:repaired-rtp-stream-id"}}
+	video := append([]c30Attr{{"mid", vmid}, {"setup", "actpass"}, {"sendonly", ""}, {"rtcp-mux", ""}}, ext...)
+	video = append(video, c30Attr{"rtpmap", "96 VP8/90000"}, c30Attr{"rtcp-fb", "96 nack"}, c30Attr{"rtpmap", "97 rtx/90000"}, c30Attr{"fmtp", "97 apt=96"},
+		c30Attr{"msid", "s t"})
+	if simulcast {
+		video = append(video, c30Attr{"rid", "hi send"}, c30Attr{"rid", "lo send"}, c30Attr{"simulcast", "send hi;lo"})
+	} else {
+		video = append(video, c30Attr{"ssrc-group", "FID 3000 3001"}, c30Attr{"ssrc", "3000 cname:x"}, c30Attr{"ssrc", "3001 cname:x"})
+	}
+	audio := append([]c30Attr{{"mid", amid}, {"setup", "actpass"}, {"sendonly", ""}, {"rtcp-mux", ""}}, ext[:1]...)
+	audio = append(audio, c30Attr{"rtpmap", "111 opus/48000/2"}, c30Attr{"msid", "s a"})
+	if !simulcast {
+		audio = append(audio, c30Attr{"ssrc", "4000 cname:x"})
+	}
+	return c30Desc{Session: sess, Media: []c30Media{
+		{Kind: "video", Port: 9, Proto: "UDP/TLS/RTP/SAVPF", Formats: []string{"96", "97"}, Attrs: video},
+		{Kind: "audio", Port: 9, Proto: "UDP/TLS/RTP/SAVPF", Formats: []string{"111"}, Attrs: audio},
+	}}
+}
+
+func c30MediaChild(in c30MediaIn) (V, Verdict) {
+	pc, err := c30API(true, true, true).NewPeerConnection(webrtc.Configuration{SDPSemantics: c30Sem(in.Sem)})
+	if err != nil {
+		panic(err)
+	}
+	var ntracks atomic.Int32
+	pc.OnTrack(func(t *webrtc.TrackRemote, _ *webrtc.RTPReceiver) {
+		ntracks.Add(1)
+		go func() { // the application reads what arrives
+			b := make([]byte, 1500)
+			for {
+				if _, _, e := t.Read(b); e != nil {
+					return
+				}
+			}
+		}()
+	})
+	st := &c30Steps{}
+	ok := st.step("srd", func() error {
+		return pc.SetRemoteDescription(webrtc.SessionDescription{Type: webrtc.SDPTypeOffer, SDP: c30MediaOffer(in.Simulcast, in.Sem == 1).Text()})
+	}) && st.step("answer", func() error {
+		ans, e := pc.CreateAnswer(nil)
+		if e != nil {
+			return e
+		}
+		return pc.SetLocalDescription(ans)
+	})
+	if !ok {
+		_ = pc.Close()
+		return VS(strings.Join(st.log, " ")), Fail("generator-valid-offer-rejected", "media offer: "+st.lastErr)
+	}
+	run := pc.VerifC30PrepareStartRTPReceivers()
+	var peer *webrtc.VerifC30Media
+	st.step("connect-media", func() error {
+		var e error
+		peer, e = pc.VerifC30ConnectMedia()
+		return e
+	})
+	if peer == nil {
+		_ = pc.Close()
+		return VS(strings.Join(st.log, " ")), Fail("media-setup", "no srtp sessions")
+	}
+	st.step("start-receivers", func() error { run(); drain(pc); return nil })
+	sent := 0
+	for _, h := range in.RTP {
+		raw, _ := hex.DecodeString(h)
+		if p, site, msg := c30Catch(func() {
+			if peer.SendRTP(raw) == nil {
+				sent++
+			}
+		}); p && st.sig == "" {
+			st.sig, st.what = "panic-in-sender-at-"+site, msg // the sending side is pion/srtp too
+		}
+	}
+	for _, h := range in.RTCP {
+		raw, _ := hex.DecodeString(h)
+		if p, site, msg := c30Catch(func() { _ = peer.SendRTCP(raw) }); p && st.sig == "" {
+			st.sig, st.what = "panic-in-sender-at-"+site, msg
+		}
+	}
+	time.Sleep(4 * time.Millisecond) // accept loop, probing goroutines, readers
+	st.step("drain", func() error { drain(pc); return nil })
+	peer.Close()
+	st.step("close", func() error { return pc.Close() })
+	obs := VS(fmt.Sprintf("%s sent=%d/%d", strings.Join(st.log, " "), sent, len(in.RTP)))
+	if st.sig != "" {
+		return obs, Fail(st.sig, st.what)
+	}
+	return obs, Pass(fmt.Sprintf("simulcast:%v/sent%d/tracks%d", in.Simulcast, min(sent, 4), min(int(ntracks.Load()), 3)), sent > 0)
+}
+
+func c30GenMediaRTP(r *Rand) []byte {
+	h := rtp.Header{Version: 2, PayloadType: Pick(r, []uint8{96, 96, 97, 111, 0, 127, 35}), SequenceNumber: uint16(r.Intn(70000)),
+		Timestamp: uint32(r.U64()), SSRC: Pick(r, []uint32{3000, 3001, 4000, 5555, 5556, 0, 0x7777}), Marker: r.Bool()}
+	for i, n := 0, r.Intn(3); i < n; i++ {
+		h.CSRC = append(h.CSRC, uint32(r.U64()))
+	}
+	if r.Chance(3, 4) {
+		h.Extension = true
+		h.ExtensionProfile = Pick(r, []uint16{0xBEDE, 0xBEDE, 0x1000})
+		if r.Chance(3, 4) {
+			_ = h.SetExtension(1, []byte(Pick(r, []string{"0", "0", "1", "video", "x", "0000000000000000"})))
+		}
+		if r.Bool() {
+			_ = h.SetExtension(2, []byte(Pick(r, []string{"hi", "lo", "zz", "h"})))
+		}
+		if r.Chance(1, 4) {
+			_ = h.SetExtension(3, []byte(Pick(r, []string{"hi", "lo", "zz"})))
+		}
+		if len(h.Extensions) == 0 {
+			_ = h.SetExtension(5, r.Bytes(3))
+		}
+	}
+	payload := r.Bytes(r.Intn(30))
+	if h.PayloadType == 97 && r.Chance(2, 3) { // RTX: OSN + payload, or a bare probe
+		payload = append([]byte{byte(r.U64()), byte(r.U64())}, payload...)
+	}
+	p := rtp.Packet{Header: h, Payload: payload}
+	if r.Chance(1, 4) {
+		p.Header.Padding, p.PaddingSize = true, uint8(r.Range(1, 30))
+		if r.Chance(1, 3) {
+			p.Payload = nil // padding-only probe
+		}
+	}
+	b, err := p.Marshal()
+	if err != nil {
+		return r.Bytes(r.Range(12, 40))
+	}
+	for k, n := 0, r.Intn(3); k < n && r.Chance(1, 2); k++ {
+		switch r.Intn(4) {
+		case 0:
+			b = b[:r.Range(min(12, len(b)), len(b))]
+		case 1:
+			b[r.Intn(len(b))] = byte(r.U64())
+		case 2:
+			b[len(b)-1] = byte(r.U64()) // padding count
+		default:
+			if len(b) > 16 {
+				b[14], b[15] = byte(r.U64()), byte(r.U64()) // extension length
+			}
+		}
+	}
+	return b
+}
+
 // ---------- suite rtx: the repair-stream rewrite, compared with the model ----------
 
 const c30RTXMTU = 100
@@ -714,16 +883,17 @@ func c30GuardRun(in c30GuardIn) (V, Verdict) {
 }
 
 var c30ChildRun = map[string]func(raw json.RawMessage) (V, Verdict){
-	"rtx":  c30ChildHandler(c30RTXChild),
-	"sdp":  c30ChildHandler(c30SDPChild),
-	"cand": c30ChildHandler(c30CandChild),
-	"rtp":  c30ChildHandler(c30RTPChild),
+	"rtx":   c30ChildHandler(c30RTXChild),
+	"media": c30ChildHandler(c30MediaChild),
+	"sdp":   c30ChildHandler(c30SDPChild),
+	"cand":  c30ChildHandler(c30CandChild),
+	"rtp":   c30ChildHandler(c30RTPChild),
 }
 
 func init() {
 
 	Register(Spec[c30SDPIn]{
-		ID: "C30", Suite: "sdp", Quick: 2400, Thorough: 100000, Parallel: 8,
+		ID: "C30", Suite: "sdp", Quick: 3000, Thorough: 120000, Parallel: 8,
 		Corpus: func() []c30SDPIn {
 			// the Plan-B witness end to end, on the operations goroutine
 			w := []byte(c30Desc{
@@ -733,6 +903,9 @@ func init() {
 						{"msid", "s t"}, {"rid", "hi send"}, {"simulcast", "send hi"}}}},
 			}.Text())
 			var out []c30SDPIn
+			for sem := 0; sem < 3; sem++ {
+				out = append(out, c30SDPIn{Sem: sem, Codecs: 3, Type: "offer", Text: []byte{}, Answer: true, Origin: "empty"})
+			}
 			for sem := 0; sem < 3; sem++ {
 				out = append(out, c30SDPIn{Sem: sem, Codecs: 1, Type: "offer", Text: w, Answer: true, Origin: "planb-witness", Readable: string(w)})
 			}
@@ -753,11 +926,18 @@ func init() {
 			return out
 		},
 		Gen: c30GenSDP, Shrink: c30ShrinkSDP,
-		Run: func(in c30SDPIn) (V, Verdict) { return c30Exec("sdp", in) },
+		Run:        func(in c30SDPIn) (V, Verdict) { return c30Exec("sdp", in) },
+		CoqImports: []string{"Check.C30"}, CoqType: "Z", CoqRun: "Check.C30.run_fixed",
+		Coq: func(in c30SDPIn) string {
+			if in.Origin == "empty" && len(in.Text) == 0 {
+				return "0"
+			}
+			return ""
+		},
 	})
 
 	Register(Spec[c30CandIn]{
-		ID: "C30", Suite: "cand", Quick: 1500, Thorough: 60000, Parallel: 8,
+		ID: "C30", Suite: "cand", Quick: 2000, Thorough: 60000, Parallel: 8,
 		Corpus: func() []c30CandIn {
 			var out []c30CandIn
 			for _, c := range c30Candidates {
@@ -792,7 +972,66 @@ func init() {
 			}
 			return out
 		},
-		Run: func(in c30CandIn) (V, Verdict) { return c30Exec("cand", in) },
+		Run:        func(in c30CandIn) (V, Verdict) { return c30Exec("cand", in) },
+		CoqImports: []string{"Check.C30"}, CoqType: "Z", CoqRun: "Check.C30.run_fixed",
+		Coq: func(in c30CandIn) string {
+			if !in.HaveRemote {
+				return "1"
+			}
+			return ""
+		},
+	})
+
+	Register(Spec[c30MediaIn]{
+		ID: "C30", Suite: "media", Quick: 300, Thorough: 20000, Parallel: 8,
+		Corpus: func() []c30MediaIn {
+			return []c30MediaIn{
+				{Sem: 0}, {Sem: 1, Simulcast: true}, {Sem: 2},
+				// declared SSRC, its RTX stream, an undeclared SSRC with mid+rid, SSRC 0 probe
+				{Simulcast: false, RTP: []string{
+					"80600001000000010000" + "0bb8" + "aabb", "80610002000000010000" + "0bb9" + "0001aabb",
+					"90600003000000010000" + "15b3" + "bede0001" + "10302168", "80600004000000010000" + "0000" + "00",
+				}, RTCP: []string{"80c90001000015b3"}},
+				{Simulcast: true, Sem: 1, RTP: []string{
+					"90600003000000010000" + "15b3" + "bede0002" + "1030" + "216869" + "000000",
+					"90600004000000010000" + "15b3" + "bede0002" + "1030" + "216869" + "000000",
+					"90610005000000010000" + "15b4" + "bede0002" + "1030" + "316869" + "000000",
+					"b0600006000000010000" + "15b5" + "bede0001" + "10300000" + "0004",
+				}},
+			}
+		},
+		Gen: func(r *Rand, i int) c30MediaIn {
+			in := c30MediaIn{Sem: i % 3, Simulcast: r.Bool()}
+			for k, n := 0, r.Range(1, 8); k < n; k++ {
+				in.RTP = append(in.RTP, hex.EncodeToString(c30GenMediaRTP(r)))
+			}
+			for k, n := 0, r.Intn(3); k < n; k++ {
+				in.RTCP = append(in.RTCP, hex.EncodeToString(c30GenRTCPBytes(r)))
+			}
+			return in
+		},
+		Shrink: func(in c30MediaIn) []c30MediaIn {
+			var out []c30MediaIn
+			for i := range in.RTP {
+				c := in
+				c.RTP = append(append([]string{}, in.RTP[:i]...), in.RTP[i+1:]...)
+				out = append(out, c)
+			}
+			if len(in.RTCP) > 0 {
+				c := in
+				c.RTCP = nil
+				out = append(out, c)
+			}
+			return out
+		},
+		Run:        func(in c30MediaIn) (V, Verdict) { return c30Exec("media", in) },
+		CoqImports: []string{"Check.C30"}, CoqType: "Z", CoqRun: "Check.C30.run_fixed",
+		Coq: func(in c30MediaIn) string {
+			if len(in.RTP) == 0 && len(in.RTCP) == 0 {
+				return "2"
+			}
+			return ""
+		},
 	})
 
 	Register(Spec[c30RTXIn]{
@@ -834,7 +1073,7 @@ func init() {
 	})
 
 	Register(Spec[c30RTPIn]{
-		ID: "C30", Suite: "rtp", Quick: 1500, Thorough: 60000, Parallel: 8,
+		ID: "C30", Suite: "rtp", Quick: 2000, Thorough: 60000, Parallel: 8,
 		Corpus: func() []c30RTPIn {
 			return []c30RTPIn{
 				{Pkt: ""}, {Pkt: "80"}, {Pkt: "8060"}, {Pkt: "806000"},
@@ -860,6 +1099,13 @@ func init() {
 			}
 			return out
 		},
-		Run: func(in c30RTPIn) (V, Verdict) { return c30Exec("rtp", in) },
+		Run:        func(in c30RTPIn) (V, Verdict) { return c30Exec("rtp", in) },
+		CoqImports: []string{"Check.C30"}, CoqType: "Z", CoqRun: "Check.C30.run_fixed",
+		Coq: func(in c30RTPIn) string {
+			if in.Pkt == "" {
+				return fmt.Sprint(3 + in.Kind)
+			}
+			return ""
+		},
 	})
 }
